@@ -259,3 +259,35 @@ theorem check_sound (L₁ L₂ : LTS ε) [DecidableEq L₁.σ] [DecidableEq L₂
   exact List.mem_map.mpr ⟨(a, b), hab, rfl⟩
 
 end ESV.Beh
+
+namespace ESV.Beh
+variable {ε : Type}
+
+theorem Sim.trans {L₁ L₂ L₃ : LTS ε} {a : L₁.σ} {b : L₂.σ} {c : L₃.σ}
+    (h₁ : Sim L₁ L₂ a b) (h₂ : Sim L₂ L₃ b c) : Sim L₁ L₃ a c := by
+  intro ω n k
+  obtain ⟨m₁, p₁, q₁⟩ := h₁ ω n k
+  obtain ⟨m₂, p₂, q₂⟩ := h₂ ω m₁ k
+  refine ⟨m₂, List.IsPrefix.trans p₁ p₂, ?_⟩
+  intro hn
+  obtain ⟨hb, eb⟩ := q₁ hn
+  obtain ⟨hc, ec⟩ := q₂ hb
+  exact ⟨hc, eb.trans ec⟩
+
+/-- behavioural equality is symmetric … -/
+theorem Equivalent.symm {L₁ L₂ : LTS ε} {a : L₁.σ} {b : L₂.σ} (h : Equivalent L₁ L₂ a b) :
+    Equivalent L₂ L₁ b a := ⟨h.2, h.1⟩
+
+/-- … and transitive: `sem(text) ≈ x` and `compile(text) ≈ sem(text)` give `compile(decompile x) ≈ x` (C02),
+`decompile(compile p) ≈ p` likewise. -/
+theorem Equivalent.trans {L₁ L₂ L₃ : LTS ε} {a : L₁.σ} {b : L₂.σ} {c : L₃.σ}
+    (h₁ : Equivalent L₁ L₂ a b) (h₂ : Equivalent L₂ L₃ b c) : Equivalent L₁ L₃ a c :=
+  ⟨Sim.trans h₁.1 h₂.1, Sim.trans h₂.2 h₁.2⟩
+
+theorem Sim.refl (L : LTS ε) (a : L.σ) : Sim L L a a := by
+  intro ω n k
+  exact ⟨n, List.prefix_refl _, fun h => ⟨h, rfl⟩⟩
+
+theorem Equivalent.refl (L : LTS ε) (a : L.σ) : Equivalent L L a a := ⟨Sim.refl L a, Sim.refl L a⟩
+
+end ESV.Beh
